@@ -32,6 +32,9 @@ func checkC12(c *Ctx) {
 		}
 		ruleErrorsReturnedAs(c, fns, "R12.5", nil)
 		c.importRules(checkC09, []string{"R9.9"}, "R12.5") // a decoder panic must become that file's error, not abort the load of all four directories
+		// the same for every other way a file's content can make the parse chain panic (an index into an empty key name, a nil
+		// optional field, a division): a panic is not "that file reported and skipped", it ends the load of all four directories
+		c.importRules(checkC09, []string{"R9.1", "R9.2", "R9.3", "R9.4", "R9.5", "R9.6"}, "R12.9")
 		c.MinCount("R12.5", 8)
 	}
 	c.MinCount("R12.1", 11)
